@@ -253,13 +253,17 @@ def _type_change_vs_field_edit(case, f):
         touched[side] = _cell_keys_changed(case["base"], case[side])
     for i in set(touched["local"]) & set(touched["remote"]):
         for typ_side, other in (("local", "remote"), ("remote", "local")):
-            if "cell_type" in touched[typ_side][i] and "cell_type" not in touched[other][i] and all(K in touched[other][i] for K in names):
+            keys_t, _ = touched[typ_side][i]
+            keys_o, cell_o = touched[other][i]
+            if "cell_type" in keys_t and "cell_type" not in keys_o and cell_o is not None and all(
+                    _field_changed(case["base"]["cells"][i], cell_o, K, transients) for K in names):
                 return True
     return False
 
 
 def _cell_keys_changed(base, other):
-    """{index of base cell: keys of that cell the differ reports as changed} for the cells the differ aligns between the two notebooks."""
+    """{index of base cell: (keys of that cell the differ reports as changed, the other notebook's version of the cell)} for the cells the
+    differ aligns between the two notebooks."""
     import nbdime
     reset_state()
     try:
@@ -273,7 +277,12 @@ def _cell_keys_changed(base, other):
         if e.get("op") == "patch" and e.get("key") == "cells":
             for ce in e["diff"]:
                 if ce.get("op") == "patch":
-                    out[ce["key"]] = {x.get("key") for x in ce["diff"]}
+                    try:
+                        from ..oracles.refpatch import refpatch
+                        cell = refpatch(base["cells"][ce["key"]], ce["diff"])
+                    except Exception:
+                        cell = None
+                    out[ce["key"]] = ({x.get("key") for x in ce["diff"]}, cell)
     return out
 
 
